@@ -136,6 +136,14 @@ impl Report {
         what: impl FnOnce() -> String,
         replay: impl FnOnce() -> J,
     ) {
+        // keys under "harness/" say that the harness could not do its job (a probe did not
+        // complete, the impersonated service was not found, ...): machinery, not a verdict
+        if key.starts_with("harness/") {
+            if !self.machinery_errors.iter().any(|m| m.starts_with(key)) {
+                self.machinery_errors.push(format!("{key}: {} [{}]", what(), replay().to_string_compact()));
+            }
+            return;
+        }
         if let Some(v) = self.violations.get_mut(key) {
             v.count += n;
             return;
